@@ -112,6 +112,48 @@ pub fn run_case(p: &Profile, case: u64, seed: u64, out: &mut dyn Write) -> Resul
         let mut ex = Executor::new(&scratch, &mut sink);
         gen::drive(p, r, case, &overrides, &mut ex, &mut |w| ws = w.to_vec());
     }
+    // shapes the history seldom ends in: SEVERAL indexes with pending updates at the moment of the upgrade (additions
+    // and deletions, also on an index that was built while empty), committed without a build
+    {
+        let mut stored: BTreeMap<u16, Vec<u32>> = BTreeMap::new();
+        {
+            let rtxn = scratch.env.read_txn().map_err(|e| e.to_string())?;
+            for entry in scratch.db.remap_types::<Bytes, Bytes>().iter(&rtxn).map_err(|e| e.to_string())? {
+                let (k, _) = entry.map_err(|e| e.to_string())?;
+                if k.len() == 8 && k[2] == 3 {
+                    stored.entry(u16::from_be_bytes([k[0], k[1]])).or_default().push(u32::from_be_bytes([k[3], k[4], k[5], k[6]]));
+                }
+            }
+        }
+        let mut pr = Prng::new(seed ^ 0x70656e64);
+        let mut sink = std::io::sink();
+        let mut ex = Executor::new(&scratch, &mut sink);
+        let mut alive = ex.exec(&Op::Begin) != Outcome::Panic;
+        for w in &ws {
+            if !alive {
+                break;
+            }
+            let ids = stored.get(&w.index).cloned().unwrap_or_default();
+            let shape = pr.below(4);
+            if shape == 1 || shape == 3 {
+                for _ in 0..pr.urange(1, 3) {
+                    let id = if pr.chance(0.5) { pr.next_u32() } else { pr.below(64) as u32 };
+                    let v: Vec<f32> = (0..w.dims).map(|_| pr.unit()).collect();
+                    alive &= ex.exec(&Op::Add(*w, id, v)) != Outcome::Panic;
+                }
+            }
+            if (shape == 2 || shape == 3) && !ids.is_empty() {
+                for _ in 0..pr.urange(1, 2) {
+                    let id = ids[pr.below(ids.len() as u64) as usize];
+                    alive &= ex.exec(&Op::Del(*w, id)) != Outcome::Panic;
+                }
+            }
+        }
+        if alive {
+            ex.exec(&Op::Commit);
+        }
+        ex.finish();
+    }
     let mut original: Pairs = Vec::new();
     {
         let rtxn = scratch.env.read_txn().map_err(|e| e.to_string())?;
